@@ -30,7 +30,8 @@ def _oracle_terms(S, method, ws, H, W, li, ri, lmk, rmk, ds, grids=None, lcodes=
                 conds += [z3.Not(invL(r, c)), z3.Not(invR(r, c2))]
                 if grids is not None:
                     gmin, gmax = grids
-                    conds += [gmin._a[r, c].t <= d, gmax._a[r, c].t >= d]
+                    gv = lambda e_: (e_.t.val if e_.k == 'x4' else e_.t) if isinstance(e_, S.Sym) else z3.RealVal(str(float(e_)))
+                    conds += [gv(gmin._a[r, c]) <= d, gv(gmax._a[r, c]) >= d]
                 comp[(r, c, k)] = z3.And(*conds)
                 if method == 'sad':
                     diffs = [lv(r + dr, c + dc) - rv(r + dr, c2 + dc) for dr, dc in win]
@@ -64,7 +65,19 @@ def cost_volume(method='sad', ws=3, H=3, W=6, dmin=-1, dmax=1, masks=True, grids
         L, li, lmk = mc.make_image(xr, S, EX, 'l', H, W, col0=col0, mask='sym' if masks else None, bands=bands, shapes=shapes, vmax=63 if method == 'ssd' else 255, codes=tuple(lcodes))
         R, ri, rmk = mc.make_image(xr, S, EX, 'r', H, W, col0=col0, mask='sym' if masks else None, bands=rbands or bands, shapes=shapes, vmax=63 if method == 'ssd' else 255, codes=tuple(rcodes))
         gr = None
-        if grids:
+        if grids == 'frac':
+            # non-integer grid values (half samples): the searched range is [int(min), int(max)] == [dmin, dmax] with the global bounds
+            # dmin - 1/2 and dmax + 1/2 pinned on two pixels; the other pixels carry symbolic half-integer bounds
+            gmin = S.fresh_array('gmin', (H, W), 'x4', scale=2); gmax = S.fresh_array('gmax', (H, W), 'x4', scale=2)
+            shapes['gmin'] = ((H, W), 'x4'); shapes['gmax'] = ((H, W), 'x4')
+            for a, b in zip(gmin._a.flat, gmax._a.flat):
+                EX.assume(z3.And(a.t.val >= z3.RealVal(dmin) - z3.RealVal('1/2'), b.t.val <= z3.RealVal(dmax) + z3.RealVal('1/2'), a.t.val <= b.t.val))
+            EX.assume(gmin._a[0, 0].t.val == z3.RealVal(dmin) - z3.RealVal('1/2')); gmin._a[0, 0] = np.float32(dmin - 0.5)
+            EX.assume(gmax._a[0, 1].t.val == z3.RealVal(dmax) + z3.RealVal('1/2')); gmax._a[0, 1] = np.float32(dmax + 0.5)
+            gr = (gmin, gmax)
+            garr = S.SymArray(np.stack([gmin._a, gmax._a]), 'x4')
+            mc.add_disparity(xr, S, L, H, W, dmin, dmax, grids=garr)
+        elif grids:
             gmin = S.fresh_array('gmin', (H, W), 'xi'); gmax = S.fresh_array('gmax', (H, W), 'xi')
             shapes['gmin'] = ((H, W), 'xi'); shapes['gmax'] = ((H, W), 'xi')
             for a, b in zip(gmin._a.flat, gmax._a.flat):
@@ -683,7 +696,11 @@ def replay(cex):
     L.coords["band_disp"] = ["min", "max"]
     grids = None
     if x['grids']:
-        grids = (np.array(inp['gmin'], np.int64).reshape(H, W), np.array(inp['gmax'], np.int64).reshape(H, W))
+        if x['grids'] == 'frac':
+            grids = (np.array(inp['gmin'], np.float64).reshape(H, W), np.array(inp['gmax'], np.float64).reshape(H, W))
+            grids[0][0, 0] = dmin - 0.5; grids[1][0, 1] = dmax + 0.5
+        else:
+            grids = (np.array(inp['gmin'], np.int64).reshape(H, W), np.array(inp['gmax'], np.int64).reshape(H, W))
         L["disparity"] = xr.DataArray(np.stack(grids).astype(np.float32), dims=["band_disp", "row", "col"]); L.attrs["disparity_source"] = "grid.tif"
     else:
         L["disparity"] = xr.DataArray(np.array([np.full((H, W), dmin), np.full((H, W), dmax)]), dims=["band_disp", "row", "col"]); L.attrs["disparity_source"] = [dmin, dmax]
